@@ -176,4 +176,19 @@ example : PosProjEq (normalizeRow (fun x : ℚ => x) ![(2 : ℚ), 0, 0]) ![2, 0,
 
 end query
 
+/-! ## added after the model-mutant round: the direction of `np.roll(v, -1, -2)` as geometry -/
+
+/-- the edges of a polygon form the closed vertex cycle in order: edge `e` starts at vertex `e`
+and ends where edge `e + 1` starts (with `np.roll(v, +1)` the end of edge `e` would be vertex `e - 1`) -/
+theorem polygonEdges_chain {K : Type} {n k : ℕ} (X : Matrix (Fin (k + 1)) (Fin n) K) (e : Fin (k + 1)) :
+    polygonEdges X e 0 = X e ∧ polygonEdges X e 1 = polygonEdges X (e + 1) 0 := by
+  constructor <;> (ext j; simp [polygonEdges])
+
+/-- not vacuous: a triangle with distinct vertices, where the two roll directions differ -/
+example : polygonEdges !![(1 : ℚ), 0; 0, 1; 1, 1] 0 1 = ![0, 1] ∧
+    polygonEdges !![(1 : ℚ), 0; 0, 1; 1, 1] 0 1 ≠ ![1, 1] := by
+  constructor
+  · ext j; fin_cases j <;> simp [polygonEdges]
+  · intro h; have := congrFun h 0; simp [polygonEdges] at this
+
 end GT.C11
